@@ -161,6 +161,18 @@ class PackHarness(Harness):
     def check(self, ctx, sched):
         viol = []
         acks = {}
+        # which code paths did the readers take in this schedule?  (evidence against vacuity: pack hit / loose hit / fallback re-query)
+        sig = []
+        for name in sched.order:
+            if not name.startswith('R'):
+                continue
+            evs = [t.split(':', 1)[1] for t in sched.trace if t.startswith(name + ':')]
+            sig.append((name,
+                        'loose-hit' if any(e.startswith('f.read:loose/') for e in evs) else '',
+                        'pack-hit' if any(e.startswith('f.read:packs/') for e in evs) else '',
+                        'requery' if sum(1 for e in evs if e.startswith('sql.read') and 'SELECT' in e) > 1 else ''))
+        if sig and ctx.outcome is None:
+            ctx.outcome = tuple(sig)
         for rec in ctx.obs:
             if rec[1] == 'ack':
                 t, _, want, got = rec
